@@ -49,6 +49,7 @@ DEFAULT_KNOBS = Knobs(
     p_hostile_doc=0.35,
     p_long_doc=0.15,
     p_return_over_params=0.12,  # the returned expression mentions parameters ("a + b")
+    p_scalar_code_default=0.06,  # an int/float/bool (or Optional thereof) whose default is a computed expression
     p_boundary_doc=0.1,  # prose of an exact length around the wrap width, so that the break falls inside / next to the default sentence
     p_multi_line_summary=0.3,
     p_long_summary=0.15,
@@ -261,7 +262,9 @@ class IRGen:
         base = tc.split("_", 1)[1] if tc.startswith(("scalar_", "optional_")) else None
         if tc == "none":
             base = r.choice(["str", "int", "float", "bool", "code"])
-        if base == "str":
+        if base in ("int", "float", "bool") and tc != "none" and k.p_scalar_code_default and self.chance(k.p_scalar_code_default):
+            v, dc = self.v_code(r.choice(["call", "dotted_call", "arith"]))
+        elif base == "str":
             v, dc = self.v_str(name)
         elif base == "int":
             v, dc = self.v_int()
